@@ -4,7 +4,7 @@ CFG = dict(
     coq="Properties/C01.v",
     areas=["lzmaenc", "lzmadec"],
     level="proof",
-    theorems_expected=["C01_prob_update_twins"],
+    theorems_expected=["C01_prob_update_twins", "C01_rc_roundtrip", "C01_lit_roundtrip", "C01_len_roundtrip", "C01_dist_slot_spec", "C01_match_roundtrip", "C01_rep_roundtrip", "C01_window_decode_is_spec", "C01_chunk_roundtrip"],
     rule="lzmaenc: cases = (option vector lc/lp/pb/dict/nice_len/mode/mf/depth, header|marker|declared-size variant or LZMA2 chunk_size, "
          "optional preset dictionary, data from 10 compressibility classes plus multi-100-KiB structured cases crossing the LZMA2 chunk "
          "limits and the window move, write-call partition with flushes); the real LZMAWriter/LZMA2Writer runs with the symbol-trace hook, "
